@@ -76,7 +76,16 @@ impl Parsable for char {
     fn parse_impl<S: TexlangState>(input: &mut vm::ExpandedStream<S>) -> txl::Result<Self> {
         let u1 = Uint::<{ char::MAX as usize }>::parse(input)?;
         let u2: u32 = u1.0.try_into().unwrap();
-        Ok(char::from_u32(u2).unwrap())
+        match char::from_u32(u2) {
+            Some(c) => Ok(c),
+            None => {
+                // The surrogate code points U+D800..U+DFFF are in range but are not characters.
+                input.error(error::SimpleFailedPreconditionError::new(format!(
+                    "the number {u2} is not the code of a character"
+                )))?;
+                Ok('\0')
+            }
+        }
     }
 }
 
